@@ -1,4 +1,5 @@
 """C02 WHERE comparisons mean what the documentation says, for every entry."""
+import itertools
 import os
 import stat
 import subprocess
@@ -228,6 +229,9 @@ def colspecs():
     yield 'modified', 'date'
     yield '*', 'colcol'
     yield '*', 'longpath'
+    yield 'America/Havana', 'date2'
+    yield 'Atlantic/Azores', 'date2'
+    yield 'UTC', 'date2'
 
 
 def groups(tier, seed):
@@ -288,9 +292,71 @@ def eval_longpath(env, group):
     return outs
 
 
+# the day on which local midnight occurs twice: Havana 2021-11-07 (01:00 CDT -> 00:00 CST = 05:00Z), Azores 2021-10-31 (01:00 -> 00:00 = 01:00Z)
+DATE2 = {'America/Havana': 1636261200, 'Atlantic/Azores': 1635642000, 'UTC': 1636261200}
+
+
+def eval_date2(env, group):
+    """`modified` compared twice in one WHERE (BETWEEN and its spelled-out forms), mtimes around a repeated local midnight"""
+    import datetime
+    import zoneinfo
+    zone = group['col']
+    z = zoneinfo.ZoneInfo(zone)
+    t0 = DATE2[zone]
+    offs = [-86400 - 3600, -5400, -3600, -1800, -1, 0, 1, 1800, 3599, 3600, 5400, 86400 + 3600]
+    root = env.newdir('c2d')
+    core.materialise(root, {'m%02d' % i: F(1, mtime=t0 + o) for i, o in enumerate(offs)})
+    times = {'./m%02d' % i: t0 + o for i, o in enumerate(offs)}
+
+    def lit(ts):
+        d = datetime.datetime.fromtimestamp(ts, z)
+        back = d.replace(tzinfo=None)
+        # only literals that name one instant (both folds agree) are written
+        a = back.replace(tzinfo=z, fold=0).timestamp()
+        b = back.replace(tzinfo=z, fold=1).timestamp()
+        return back.strftime('%Y-%m-%d %H:%M:%S') if a == b == ts else None
+    outs = []
+    try:
+        bounds_ = [t0 - 86400 - 3600, t0 - 86400, t0 - 3 * 3600, t0 + 3 * 3600, t0 + 86400, t0 + 86400 + 3600]
+        conds = []
+        for a, b in itertools.combinations(bounds_, 2):
+            la, lb = lit(a), lit(b)
+            if la is None or lb is None:
+                continue
+            conds += [("modified between '%s' and '%s'" % (la, lb), lambda t, a=a, b=b: a <= t <= b),
+                      ("modified >= '%s' and modified <= '%s'" % (la, lb), lambda t, a=a, b=b: a <= t <= b),
+                      ("modified > '%s' and not modified > '%s'" % (la, lb), lambda t, a=a, b=b: a < t <= b),
+                      ("modified < '%s' or modified > '%s'" % (la, lb), lambda t, a=a, b=b: t < a or t > b),
+                      ("modified not between '%s' and '%s'" % (la, lb), lambda t, a=a, b=b: not a <= t <= b),
+                      ("modified >= '%s'" % la, lambda t, a=a: t >= a)]
+        for cond, pred in conds:
+            if group['only'] is not None and cond != group['only']:
+                continue
+            q = 'path from . where %s into list' % cond
+            o = env.run([q], cwd=root, env={'TZ': zone})
+            exp = sorted(p_ for p_, t in times.items() if pred(t))
+            r = {'case': {'variant': group['variant'], 'col': zone, 'kind': 'date2', 'cond': cond}, 'nt': 0 < len(exp) < len(times),
+                 'layer': 'date2', 'trans': len(times)}
+            rows = o.rows()
+            if o.timeout or o.rc != 0 or o.err:
+                r.update(status='viol', cls='date-twice:status', detail=dict(o.brief(), query=q, tz=zone), sig=('err', o.rc))
+            elif sorted(rows) != exp:
+                got = set(rows)
+                r.update(status='viol', cls='date-twice:rows', sig=('rows', tuple(sorted(got))),
+                         detail={'query': q, 'tz': zone, 'missing': sorted(set(exp) - got)[:6], 'extra': sorted(got - set(exp))[:6]})
+            else:
+                r.update(status='ok', sig=tuple(exp))
+            outs.append(r)
+    finally:
+        env.rmtree(root)
+    return outs
+
+
 def eval_group(env, group, tier):
     if group['kind'] == 'longpath':
         return eval_longpath(env, group) if group['variant'] == 0 else []
+    if group['kind'] == 'date2':
+        return eval_date2(env, group) if group['variant'] == 0 else []
     root = env.newdir('c2')
     core.materialise(root, the_tree(group['variant']))
     col, kind = group['col'], group['kind']
